@@ -288,6 +288,9 @@ func mServeConn(s *rpc.Server, conn io.ReadWriteCloser) {
 	for {
 		select {
 		case req := <-g.reqQ:
+			if p := wCurProc(); p != nil && p.frozen {
+				continue // a stopped process reads nothing and answers nothing
+			}
 			go func() {
 				svc, method, _ := strings.Cut(req.method, ".")
 				rcvr, ok := srv.rcvrs[svc]
@@ -342,12 +345,21 @@ func mRPCCall(c *rpc.Client, serviceMethod string, args any, reply any) error {
 	default:
 		return errors.New("rpc: request queue full")
 	}
+	// yamux keep-alive (enabled in the default configuration go-plugin uses): a peer that stops answering - a stopped
+	// process - has its session declared dead after at most the keep-alive interval plus the write timeout (40 s)
+	var keepalive <-chan time.Time
+	if pp := wProcs[raw.peer.owner]; pp != nil && pp.frozen {
+		keepalive = time.After(40 * time.Second)
+	}
 	select {
 	case err := <-req.done:
 		if err == nil {
 			vCopyInto(reply, req.reply)
 		}
 		return err
+	case <-keepalive:
+		raw.shut()
+		return yamux.ErrKeepAliveTimeout
 	case <-g.peer.closeC:
 		return io.ErrUnexpectedEOF
 	case <-raw.closeCh:
